@@ -437,7 +437,7 @@ def run(index: RepoIndex, rep) -> None:
     rep.rule('C01.R4', 'reward returns are float-kinded, termination returns bool-kinded',
              floor=20)
     rep.rule('C01.R5', 'no escaping ValueError/KeyError from random indices and table lookups',
-             floor=4)
+             floor=3)
     rep.rule('C01.R6', 'shipped configurations declare every object type and colour their '
              'reset and transition functions can place', floor=21)
     n = run_bounds(index, rep, 'C01.R1')
